@@ -71,9 +71,10 @@ class Renderer(object):
                 t += rnd.choice([u"", u"", u"", u" ", u"\t", u"   "])           # trailing blanks are legal everywhere
             out.append(t)
             spec.append(render.spec_line(ln))
-        text = u"\n".join(out)
+        eol = rnd.choice(render.EOLS)
+        text = eol.join(out)
         if out and rnd.random() < 0.5:
-            text += u"\n"
+            text += eol
         return text, spec, l1, l2
 
 
